@@ -15,6 +15,7 @@ func init() {
 		c18PacketCreate(c)
 		c18FlushSkeleton(c)
 		c18NoLateCallbacks(c)
+		takeAndSend(c, "C18.9") // the value announced by the flush events is the value taken from the buffer and handed over
 		c20Snapshot(c, "C18.2b")
 		sliceFifoShapes(c, "C18.2c")
 		c01AtomicTake(c)
@@ -68,7 +69,7 @@ func c18FlushSkeleton(c *core.Ctx) {
 	if u == nil {
 		return
 	}
-	info := u.Info()
+	_ = u.Info()
 	g := u.Graph()
 	pick := func(class, ev string) *Ev {
 		l := filterEv(events(c, u), "emit", class, ev)
@@ -101,7 +102,7 @@ func c18FlushSkeleton(c *core.Ctx) {
 		order = order && g.Dominates(fsv.Loc, p.Loc)
 	}
 	c.Check(R, sockFlush+"/flush≺flush@server≺push≺Send≺drain≺drain@server", u.Pos(), order, "event and hand-off order")
-	same := sameObj(info, fs.Arg(1), send.Arg(0)) && sameObj(info, fsv.Arg(2), send.Arg(0))
+	same := sameVal(u, fs.Arg(1), send.Arg(0)) && sameVal(u, fsv.Arg(2), send.Arg(0))
 	c.Check(R, sockFlush+"/same-batch-in-events-and-Send", fs.Pos(), same, "the flush events carry exactly the packets handed to the transport")
 	// non-empty guard: len(wbuf) > 0
 	nonEmpty := func(x *core.Unit, br core.Branch) int {
@@ -537,7 +538,7 @@ func sliceFifoShapes(c *core.Ctx, R string) {
 		return ok && calleeNameOf(ce) == "len" && len(ce.Args) == 1 && isElems(u, ce.Args[0])
 	}
 	isLenMinus1 := func(u *core.Unit, e ast.Expr) bool {
-		be, ok := ast.Unparen(e).(*ast.BinaryExpr)
+		be, ok := ast.Unparen(u.Deep(e)).(*ast.BinaryExpr) // `last := len(s.elements) - 1` names the same expression
 		if !ok || be.Op != token.SUB || !isLen(u, be.X) {
 			return false
 		}
